@@ -521,6 +521,10 @@ pub fn generate(seed: u64, profile: Profile, buggify: bool, n_foreign: usize) ->
 /// `lenient`: the driver does not stop at a divergence from the reference model (the model is re-based
 /// on what the log shows), for checks whose oracle does not use the model.
 pub fn generate_with(seed: u64, profile: Profile, buggify: bool, n_foreign: usize, lenient: bool) -> (Case, Driver) {
+    generate_opts(seed, profile, buggify, n_foreign, lenient, false)
+}
+
+pub fn generate_opts(seed: u64, profile: Profile, buggify: bool, n_foreign: usize, lenient: bool, lenient_io: bool) -> (Case, Driver) {
     let mut rng = Rng::new(seed);
     let cfg = swarm(&mut rng, profile);
     let policy = pick_policy(&mut rng, profile);
@@ -530,6 +534,7 @@ pub fn generate_with(seed: u64, profile: Profile, buggify: bool, n_foreign: usiz
     let mut case = Case { names, policy, knobs, foreign, probe_seed: rng.next_u64(), ops: Vec::new() };
     let mut driver = Driver::new(&case);
     driver.lenient = lenient;
+    driver.lenient_io = lenient_io;
     let mut g = Gen::new(cfg.clone(), rng.fork(1));
     let first = Op::Restart { policy: None };
     case.ops.push(first.clone());
